@@ -19,5 +19,5 @@ HARNESSES += [TR(2, f, n, split=sp) for f in (0, 1, 2) for n in (1, 2, 3, 5) for
 HARNESSES += [TR(0, 2, 4, split=2, tiers=('thorough',), timeout=3000)]
 ASSUMPTIONS = ['input length and fragmentation fixed per query (bytes symbolic); allocation never fails; every heap access checked against the harness object table',
                'UTF-8/UTF-16 transforms are not covered by this check']
-LEVEL_TEXT = 'placeholder'
-LEVEL_NOTE = 'placeholder'
+LEVEL_TEXT = 'Base32 / Base32Hex / Base64 through the real transform.c + data.c with SYMBOLIC input bytes: (a) arbitrary text of 1 (thorough 2, and 4 split inside a group) characters decoded path by path: result NULL or of plausible size, no out-of-bounds heap access, no absurd allocation - this found the padding underflow fixed in /repo; (b) the real encoder on 1..6 symbolic bytes, unfragmented and split into two regions, against an independent RFC 4648 reference decoder written in the harness: length, alphabet, padding and recovered bytes.'
+LEVEL_NOTE = 'The real decoder on multi-group text (needed for a full real-encoder/real-decoder round trip and for splits inside a group) is in the thorough tier only; UTF-8/UTF-16 transforms are NOT covered.'
